@@ -14,6 +14,9 @@ from fractions import Fraction
 LETTERS = "ABCDEFGHIJKLMNOPQRSTUVWXYZ"
 
 
+TOL = Fraction(1, 10**6)  # slack of the limit checks (R records print float volumes unrounded)
+
+
 class GwlError(Exception):
     pass
 
@@ -174,6 +177,29 @@ def decode_selection(sel):
 # ---------------------------------------------------------------------------------------------
 # racks and numbering
 # ---------------------------------------------------------------------------------------------
+def dec(x):
+    """Number -> Fraction of its shortest decimal representation (0.1 -> 1/10), so that values on a decimal
+    grid are exact; differs from the binary value by less than one ulp."""
+    if isinstance(x, Fraction):
+        return x
+    if isinstance(x, str):
+        return Fraction(x)
+    return Fraction(repr(float(x)))
+
+
+def lenient_f11_hook(what, rec, info):
+    """For checks that are not about addressing (C03): accept the EVO-numbered source range that a
+    FluentWorklist.distribute emits for troughs (open finding F11, reported by C01) and use that column."""
+    if what != "R-source":
+        return None
+    src = info["src"]
+    V = src.id_rows
+    s0, s1 = int(rec.f["src_start"]), int(rec.f["src_end"])
+    if info["device"] == "fluent" and src.kind == "trough" and V > 1 and (s0 - 1) % V == 0 and s1 == s0 + V - 1 and (s0 - 1) // V < src.cols:
+        return (0, (s0 - 1) // V)
+    return None
+
+
 class Rack:
     """One labware on the worktable: geometry, limits, exact volumes and origin-tagged contents."""
 
@@ -183,15 +209,15 @@ class Rack:
         self.id_rows = id_rows  # rows of the id grid (virtual rows for troughs)
         self.cols = cols
         self.real_rows = 1 if kind == "trough" else id_rows
-        self.vmin = Fraction(vmin)
-        self.vmax = Fraction(vmax)
+        self.vmin = dec(vmin)
+        self.vmax = dec(vmax)
         self.gridsite = tuple(gridsite) if gridsite else None
         self.vol = {}
         self.content = {}  # (r,c) -> {origin: Fraction amount}
         self.tainted = set()
         for r in range(self.real_rows):
             for c in range(cols):
-                v = Fraction(init[r][c])
+                v = dec(init[r][c])
                 self.vol[(r, c)] = v
                 self.content[(r, c)] = {(name, r, c): v} if v > 0 else {}
 
@@ -250,7 +276,7 @@ class Interp:
         self.racks = {r.name: r for r in racks}
         self.by_site = {r.gridsite: r for r in racks if r.gridsite}
         self.device = device
-        self.max_step = None if max_step is None else Fraction(max_step)
+        self.max_step = None if max_step is None else dec(max_step)
         self.issues = []
         self.tip = None  # (volume text, Fraction volume, content dict or None)
         self.moves = []  # per liquid-moving record: dict(index, type, rack, well, pos, vol)
@@ -273,7 +299,7 @@ class Interp:
         else:
             taken = {}
         rack.vol[well] = have - vol
-        if rack.vol[well] < rack.vmin:
+        if rack.vol[well] < rack.vmin - TOL:
             self.issue("below-min", f"{rack.name}{well}: {float(have)} - {float(vol)} < min_volume {float(rack.vmin)}")
         return None if well in rack.tainted else taken
 
@@ -281,7 +307,7 @@ class Interp:
         if vol == 0:
             return
         rack.vol[well] += vol
-        if rack.vol[well] > rack.vmax:
+        if rack.vol[well] > rack.vmax + TOL:
             self.issue("above-max", f"{rack.name}{well}: {float(rack.vol[well] - vol)} + {float(vol)} > max_volume {float(rack.vmax)}")
         if content is None:
             rack.tainted.add(well)
@@ -291,7 +317,7 @@ class Interp:
                 tgt[o] = tgt.get(o, 0) + a
 
     def _step_check(self, vol, what):
-        if self.max_step is not None and vol > self.max_step:
+        if self.max_step is not None and vol > self.max_step + TOL:
             self.issue("oversized-step", f"{what} of {float(vol)} exceeds the worklist max_volume {float(self.max_step)}")
 
     def run(self, records, start=0):
